@@ -299,7 +299,7 @@ func (o *Outcome) Emit(s *hx.Session, c Case) {
 		var ops []string
 		for j, op := range p.Prog.Ops {
 			m := modelOp(i, j, op)
-			if op.Kind == "rm" && j < len(p.Results) && p.Results[j].Alias != 0 {
+			if op.Kind == "rm" && j < len(p.Results) && p.Results[j].Alias > 0 {
 				m = fmt.Sprintf("rmx:%d:%d", op.Key, p.Results[j].Alias)
 			}
 			ops = append(ops, m)
